@@ -465,3 +465,32 @@ def main(ctx):
     rep.coverage["toy_curves"] = cover
     rep.coverage["real_curves"] = names
     return rep
+
+
+def mixed_cases(ctx):
+    """keys d and n-d, several curves of equal lengths, verifier with and
+    without tables, one process"""
+    from ecdsa import curves as cv
+    groups = []
+    for names in catalog.same_length_groups()[:4]:
+        items = []
+        for nm in names:
+            n = int(getattr(cv, nm).order)
+            for d in (5, n - 5, 1, n - 1):
+                for (entry, vkcfg, vkprov) in (
+                        ("sign_digest_k", "eager", "orig"),
+                        ("sign_det", "lazy", "der"),
+                        ("sign_digest_det", "plain", "compressed"),
+                        ("sign_k", "eager", "pem")):
+                    items.append(("config", dict(
+                        kind="real", cref=nm, d=d, k=7, msg=b"\x33" * 24,
+                        entry=entry, enc="der", allow_truncate=True,
+                        vkcfg=vkcfg, vkprov=vkprov, skprov="orig",
+                        hash="sha1")))
+                    items.append(("config", dict(
+                        kind="real", cref=nm, d=d, k=9, msg=b"\x33" * 24,
+                        entry=entry, enc="string", allow_truncate=True,
+                        vkcfg=vkcfg, vkprov=vkprov, skprov="der-pkcs8",
+                        hash="sha256")))
+        groups.append(items)
+    return groups
